@@ -3,7 +3,7 @@ import itertools, re
 from collections import Counter
 
 ID = "C08"
-MODEL_MODULES = ["Base", "Index", "Broadcast", "Reduce"]
+MODEL_MODULES = ["Base", "Index", "Broadcast", "Dtype", "Reduce"]
 HANDLERS = ["h_c08.ml"]
 CLAIM = dict(
     text=("Kernel-checked for EVERY rank, all positive extents, EVERY binary operation f (a Section variable: no commutativity or "
@@ -20,6 +20,13 @@ CLAIM = dict(
           "subtract / maximum / minimum, sum, prod, amax, amin, accumulate_* / cumsum / cumprod on every shape of dim 1..4 extents "
           "1..3, every non-empty axis subset in two orders with mixed signs, axis None, keepdims absent / run-time bool / True_ / False_, "
           "initial absent / present, axis as int / std::vector / std::array / compile-time constants (meta::ct, tuple of ct), run-time-rank and fixed-rank arrays. mean / var / stddev / "
+          "The accumulator lives in the RESULT type (requested dtype, else the source element type): the theorems are stated for a source type E, "
+          "a result type R, a conversion cast : E -> R and a step f : R -> E -> R, and C08_fold_in_result_type shows that for integer-valued data, "
+          "+ * -, converting into R after every step equals NumPy's exact fold converted once — for reduce and accumulate. Corresponded at "
+          "type-width boundaries: index::remove_dims / view::sum with axis arguments of every integer width and signedness (int8..uint64 as "
+          "scalar, std::vector, std::array) and kept extents around 2^7, 2^8 (view) and 2^15, 2^16, 2^31, 2^32 (bare shapes); sum / prod / cumsum / "
+          "cumprod / accumulate_add on uint8 / int8 / int32 sources with wider, narrower, other-signedness and floating dtypes, with values that "
+          "overflow the source type or the narrower dtype. "
           "An explicitly requested result dtype (float64 / int32 on int64 data) and uint8 data (the accumulator keeps the operand's element type: "
           "f = op mod 256, an instance of the arbitrary f) are corresponded as well. "
           "vector_norm (double data, relative tolerance 1e-9; the model composes the views as mean.hpp / var.hpp do with the modelled "
@@ -33,11 +40,13 @@ RULE = ("every shape dim 1..4 extents 1..3 (thorough: 1..4) x every non-empty su
         "sample of shapes; explicit dtype and uint8 samples; compile-time axis constants from a fixed table; a few out-of-quantifier axis arguments (spec unspecified). non-trivial = source of dim >= 2 with an extent > 1; "
         "distinct = distinct case lines")
 THEOREM_STATUS = {"proved": ["C08_reduce_shape", "C08_reduce_elem", "C08_axes_order_and_sign", "C08_axes_permutation_same_mask",
-                             "C08_reduce_all_axes_eq_none", "C08_accumulate", "C08_sum_prod_amax_amin",
+                             "C08_reduce_all_axes_eq_none", "C08_accumulate", "C08_sum_prod_amax_amin", "C08_fold_in_result_type",
                              "C08_mean_divisor_counts_folded_elements"],
                   "partial": [], "refuted": []}
 ASSUMPTIONS = ["extents are positive; axes valid and duplicate-free (outside: C15)",
                "the {start,stop} slice view with 0 <= start <= stop <= extent reads source coordinate start+k (slice arithmetic is C05)",
+               "conversion of an out-of-range value to a SIGNED integer type is modular (gcc/clang; implementation-defined before C++20); "
+               "float dtypes are exact on the generated values (< 2^24 / 2^53); no step overflows its C++ arithmetic type",
                "integer data stays inside int64 (generators keep partial results small); floating-point statistics only up to 1e-9"]
 
 OPS_GENERAL = ["add", "subtract", "lin", "lin", "multiply", "maximum", "minimum"]
@@ -47,7 +56,8 @@ KDS = ["def", "rt0", "rt1", "ct0", "ct1"]
 
 def drivers(tier):
     return {"c08": [("c08.cpp", "ndebug", ()), ("c08.cpp", "asan", ("-DVD_LIGHT",))],
-            "c08s": [("c08_stat.cpp", "ndebug", ())]}
+            # two translation units answer the same case stream (each says "unsupported" for the other's ops): built in parallel
+            "c08s": [("c08_stat.cpp", "ndebug", ()), ("c08_types.cpp", "ndebug", ())]}
 
 
 def L(v): return "L:" + ",".join(str(x) for x in v)
@@ -170,6 +180,81 @@ def gen_cases(rng, tier):
     for shape in shapes:
         if len(shape) in (2, 3) and rng.random() < 0.5:
             out.append(("statistics", "trace %s" % A(shape, [rng.randint(-9, 9) for _ in range(size(shape))]), "c08s"))
+    # ---------- type-width boundaries (c08_types.cpp) ----------
+    AXT = ["i8", "u8", "i16", "u16", "i32", "u32", "i64", "u64"]
+    BOUND = [1, 2, 3, 127, 128, 129, 200, 255, 256, 257, 300, 32767, 32768, 40000, 65535, 65536, 70000,
+             2**31 - 1, 2**31, 2**32, 2**32 + 5]
+    def typed_axes(t, d, k):
+        sub = rng.sample(range(d), k)
+        if rng.random() < 0.5: sub.sort()
+        if not t.startswith("u"): sub = [a - d if rng.random() < 0.5 else a for a in sub]
+        return sub
+    # (1) index::remove_dims on bare shapes with extents around 2^7, 2^8, 2^15, 2^16, 2^31, 2^32, axis argument of every
+    #     integer width / signedness as scalar, std::vector, std::array; shape as std::vector / std::array; keepdims ct / rt
+    n = 0
+    for t in AXT:
+        for akind in ("scalar", "vec", "arr"):
+            for sk in ("vec", "arr"):
+                for kd in ("ct0", "ct1", "rt0", "rt1"):
+                    for rep in range(2 if tier == "quick" else 8):
+                        n += 1
+                        d = rng.randint(1, 3)
+                        shape = [rng.choice(BOUND[:11] if rng.random() < 0.6 else BOUND) for _ in range(d)]
+                        k = 1 if akind == "scalar" else rng.randint(1, d)
+                        ax = typed_axes(t, d, k)
+                        tok = "I:%d" % ax[0] if akind == "scalar" else L(ax)
+                        # a run-time bool keepdims with a fixed-rank shape AND a fixed-size axis is not a configuration the views
+                        # produce (view::reduce turns a run-time bool into True / False first); index::remove_dims sizes its fixed
+                        # result for keepdims=false there and overruns it — outside C08's quantifier (see notes): use the ct spelling
+                        kd_ = kd.replace("rt", "ct") if (sk == "arr" and akind != "vec") else kd
+                        out.append(("axis-type-shape", "rdims S:%s S:%s S:%s S:%s %s %s" % (t, akind, sk, kd_, L(shape), tok), "c08s"))
+    # (2) view::sum with the same axis argument types on arrays with a kept extent just below / above 2^7 and 2^8
+    BIG = [(130,), (2, 200), (300, 2), (2, 130, 2), (129, 2), (2, 257), (3, 128), (127, 2), (2, 255), (256, 1)]
+    for t in AXT:
+        # all containers for the 8-bit types, scalar + std::array for 16 bit, scalar for 32 / 64 bit (driver instantiation budget)
+        for akind in (("scalar", "vec", "arr") if t in ("i8", "u8") else ("scalar", "arr") if t in ("i16", "u16") else ("scalar",)):
+            for kd in ("def", "rt1"):
+                for rep in range((3 if t in ("i8", "u8") else 2) if tier == "quick" else 8):
+                    shape = rng.choice(BIG) if rep == 0 or rng.random() < 0.5 else rng.choice(shapes)
+                    d = len(shape)
+                    k = 1 if akind == "scalar" else rng.randint(1, min(d, 3 if t in ("i8", "u8") else 2))
+                    ax = typed_axes(t, d, k)
+                    tok = "I:%d" % ax[0] if akind == "scalar" else L(ax)
+                    data = [rng.randint(-9, 9) for _ in range(size(shape))]
+                    out.append(("axis-type-view", "tsum S:%s S:%s S:%s %s %s" % (t, akind, kd, A(shape, data), tok), "c08s"))
+    # (3) source element type x result dtype for reduce AND accumulate: values overflow the source type (or the narrower
+    #     dtype) but never the C++ arithmetic type of a step (no UB) and stay exactly representable in a float dtype
+    PAIRS = [("u8", x) for x in ("none", "i8", "i32", "u64", "f64")] + [("i8", x) for x in ("none", "u8", "i16", "i64", "f32")] + \
+            [("i32", x) for x in ("none", "i8", "i64", "f64")]
+    def typed_data(src, dt, mul, cnt):
+        wide = src == "i32" and dt in ("i64", "f64")
+        if not mul:
+            if src == "u8": return [rng.randint(0, 255) for _ in range(cnt)]
+            if src == "i8": return [rng.randint(-128, 127) for _ in range(cnt)]
+            return [rng.choice([-1, 1]) * rng.randint(5 * 10**8, 10**9) for _ in range(cnt)] if wide else [rng.randint(-1000, 1000) for _ in range(cnt)]
+        dta = [1 if (src == "u8" or rng.random() < 0.7) else -1 for _ in range(cnt)]
+        if wide:
+            for _ in range(min(cnt, 3)): dta[rng.randrange(cnt)] = rng.randint(2000, 3000)
+        else:
+            for _ in range(min(cnt, 5)): dta[rng.randrange(cnt)] = rng.randint(2, 6)
+            dta[rng.randrange(cnt)] = rng.randint(20, 100)
+        return dta
+    tshapes = [(5,), (8,), (3,), (2, 3), (3, 2), (4, 2), (2, 2, 3), (3, 1, 2), (2, 4), (1, 6)]
+    for i in range(336 if tier == "quick" else 2000):
+        src, dt = PAIRS[i % 14]; mul = (i // 14) % 2 == 1
+        shape = rng.choice(tshapes); d = len(shape)
+        data = typed_data(src, dt, mul, size(shape))
+        if (i // 28) % 3 == 0: ax = "N"
+        else:
+            sub = rng.sample(range(d), rng.randint(1, d)); ax = L([a - d if rng.random() < 0.5 else a for a in sub])
+        init = "N" if (ax == "N" or (i // 84) % 2 == 0) else "I:%d" % (rng.choice([1, 2, 3, -1]) if mul else rng.randint(-20, 20))
+        out.append(("dtype-reduce", "tred S:%s S:%s S:%s S:def %s %s %s" % ("prod" if mul else "sum", src, dt, A(shape, data), ax, init), "c08s"))
+    for i in range(252 if tier == "quick" else 1500):
+        src, dt = PAIRS[i % 14]; fn = ["cumsum", "cumprod", "add"][(i // 14) % 3]
+        shape = rng.choice(tshapes); d = len(shape)
+        data = typed_data(src, dt, fn == "cumprod", size(shape))
+        axis = rng.randrange(d); axis = axis - d if rng.random() < 0.4 else axis
+        out.append(("dtype-accumulate", "tacc S:%s S:%s S:%s %s I:%d" % (fn, src, dt, A(shape, data), axis), "c08s"))
     # outside the quantifier: invalid / duplicate axes (C15's subject): spec "unspecified", never judged
     for line in ["reduce S:add S:reduce S:vec S:def S:dyn A:2,3:1,2,3,4,5,6 L:0,0 N",
                  "reduce S:add S:named S:int S:rt1 S:dyn A:2,3:1,2,3,4,5,6 I:2 N",
@@ -187,6 +272,7 @@ def _shape_of(line):
 
 
 def nontrivial(line):
+    if line.startswith("rdims"): return True
     sh = _shape_of(line)
     return len(sh) >= 2 and any(x > 1 for x in sh)
 
